@@ -127,7 +127,7 @@ def check_pure(c, rec, case, tag, synthetic=False):
         for P1, P2 in zip(Ps[:-1], Ps[1:]):
             d = c.S('g', T, P2) - c.S('g', T, P1)
             exp = -tmo.constants.R * math.log(P2 / P1)
-            rec.check(abs(d - exp) <= 1e-10 * abs(exp) + 1e-12 * abs(c.S('g', T, P1)), 'gas-pressure', tag, f'{c.ID} ref {ref}: S(g,{P2})-S(g,{P1}) = {d!r} expected -R ln(P2/P1) = {exp!r}', residual=abs(d - exp) / abs(exp))
+            rec.check(abs(d - exp) <= 1e-10 * abs(exp) + 1e-12 * abs(c.S('g', T, P1)), 'gas-pressure', tag, f'{c.ID} ref {ref}: S(g,{P2})-S(g,{P1}) = {d!r} expected -R ln(P2/P1) = {exp!r}', residual=abs(d - exp) / max(abs(exp), 1e-300))
             rec.check(abs(tmo.constants.R - R) < 1e-6 * R, 'gas-pressure', 'R-value', f'library R = {tmo.constants.R}')
             # enthalpy and liquid/solid entropy do not depend on pressure in the ideal package
             dl = c.H('g', T, P2) - c.H('g', T, P1)
@@ -255,7 +255,7 @@ def check_locked(k, rec, case, tag, unlocked=None):
         try:
             for P1, P2 in zip(case['Ps'][:-1], case['Ps'][1:]):
                 d = k.S(T, P2) - k.S(T, P1); exp = -tmo.constants.R * math.log(P2 / P1)
-                rec.check(abs(d - exp) <= 1e-10 * abs(exp) + 1e-12 * abs(k.S(T, P1)), 'gas-pressure', f'locked-g/{tag}', f'{k.ID} locked at g: S({P2})-S({P1}) = {d!r} expected -R ln(P2/P1) = {exp!r}', residual=abs(d - exp) / abs(exp))
+                rec.check(abs(d - exp) <= 1e-10 * abs(exp) + 1e-12 * abs(k.S(T, P1)), 'gas-pressure', f'locked-g/{tag}', f'{k.ID} locked at g: S({P2})-S({P1}) = {d!r} expected -R ln(P2/P1) = {exp!r}', residual=abs(d - exp) / max(abs(exp), 1e-300))
                 dl = k.H(T, P2) - k.H(T, P1)
                 rec.check(dl == 0, 'gas-pressure', f'H-independent/locked-g/{tag}', f'{k.ID} locked at g: ideal gas enthalpy changed with pressure by {dl}')
         except Exception as e:
@@ -431,7 +431,7 @@ def run_mix_added(case, rec, th, mix, chems, ids, n, ph, T, P, Hm, Cm, Sm, Hp, C
     if ph == 'g' and P2:
         try:
             d = mix.S('g', n, T, P2) - Sm; exp = -Rl * n.sum() * math.log(P2 / P)
-            rec.check(abs(d - exp) <= 1e-10 * abs(exp) + 1e-12 * abs(Sm), 'gas-pressure', 'mixture', f'mixture S(g,{P2})-S(g,{P}) = {d!r} expected -R sum(n) ln(P2/P1) = {exp!r}', residual=abs(d - exp) / abs(exp))
+            rec.check(abs(d - exp) <= 1e-10 * abs(exp) + 1e-12 * abs(Sm), 'gas-pressure', 'mixture', f'mixture S(g,{P2})-S(g,{P}) = {d!r} expected -R sum(n) ln(P2/P1) = {exp!r}', residual=abs(d - exp) / max(abs(exp), 1e-300))
             rec.check(mix.H('g', n, T, P2) == Hm, 'gas-pressure', 'H-independent/mixture', 'ideal gas mixture enthalpy changed with pressure')
             rec.hit('mix:gas-pressure')
         except Exception as e:
